@@ -139,6 +139,8 @@ def _format(fmt, args, node):
 
 def _join(sep, arg, env):
     """sep.join(<list expr>): list literal (+ list var)*"""
+    if isinstance(arg, ast.Name) and arg.id in env and env[arg.id] and env[arg.id][0][0] == "listvar":
+        return join_entries(sep, env[arg.id][0][1], arg)
     items = _list_items(arg)
     if items is None:
         return [("hole", ast.Call(func=ast.Attribute(value=ast.Constant(sep), attr="join", ctx=ast.Load()), args=[arg], keywords=[]), "")]
@@ -153,6 +155,35 @@ def _join(sep, arg, env):
         else:  # a list-valued expression spliced in: zero or more items, each preceded by sep
             out.append(("rep", [("lit", sep), ("hole", x, "item")], None))
     return _merge(out)
+
+
+def join_entries(sep, entries, node):
+    """sep.join(L) for a list variable built as [items...] followed by append/extend calls."""
+    out = []
+    first = True
+    for ent in entries:
+        if ent[0] == "item":
+            if not first:
+                out.append(("lit", sep))
+            out += ent[1]
+            first = False
+        else:  # ("rep", parts, loop): zero or more items, each preceded by the separator
+            if first:
+                return [("opaque", node)]
+            out.append(("rep", _merge([("lit", sep)] + ent[1]), ent[2]))
+    return _merge(out)
+
+
+def comp_entry(comp):
+    """A list comprehension / generator spliced into a list: ('rep', template of the element, pseudo for-loop)."""
+    if len(comp.generators) != 1 or comp.generators[0].is_async:
+        return ("rep", [("opaque", comp)], None)
+    g = comp.generators[0]
+    loop = ast.For(target=g.target, iter=g.iter, body=[], orelse=[])
+    ast.copy_location(loop, comp)
+    if g.ifs:
+        return ("rep", [("opaque", ast.Constant(value="filtered tag loop: " + norm(g.ifs[0])[:60]))], loop)
+    return ("rep", of_expr(comp.elt), loop)
 
 
 def _list_items(e):
@@ -263,11 +294,31 @@ class Builder:
             if self.loop_body_template:
                 self.loop_body_template(ev.node, self)
 
+    def _list_entries(self, e):
+        if isinstance(e, (ast.List, ast.Tuple)):
+            return [("item", of_expr(x, self._env())) for x in e.elts]
+        if isinstance(e, (ast.ListComp, ast.GeneratorExp)):
+            return [comp_entry(e)]
+        return None
+
     def stmt(self, st):
         if isinstance(st, ast.Assign) and len(st.targets) == 1 and isinstance(st.targets[0], ast.Name):
             v = st.targets[0].id
             if v in self.track:
-                self.env[v] = of_expr(st.value, self._env())
+                ents = self._list_entries(st.value) if isinstance(st.value, ast.List) else None
+                if ents is not None:
+                    self.env[v] = [("listvar", ents)]
+                else:
+                    self.env[v] = of_expr(st.value, self._env())
+        elif isinstance(st, ast.Expr) and isinstance(st.value, ast.Call) and isinstance(st.value.func, ast.Attribute) and isinstance(st.value.func.value, ast.Name) and st.value.func.value.id in self.track and st.value.func.attr in ("append", "extend") and len(st.value.args) == 1:
+            v = st.value.func.value.id
+            cur = self.env.get(v)
+            if cur and cur[0][0] == "listvar":
+                if st.value.func.attr == "append":
+                    cur[0][1].append(("item", of_expr(st.value.args[0], self._env())))
+                else:
+                    ents = self._list_entries(st.value.args[0])
+                    cur[0][1].extend(ents if ents is not None else [("rep", [("opaque", st.value.args[0])], None)])
         elif isinstance(st, ast.AugAssign) and isinstance(st.op, ast.Add) and isinstance(st.target, ast.Name):
             v = st.target.id
             if v in self.track:
